@@ -116,6 +116,46 @@ def _r5(run, prog):
                          "%s.%s: the setter reaches the pipelines of type %s but the getter reads the value from %s: a value assigned (by a group "
                          "to its members) is not stored on the pipelines it is read back from"
                          % (cname, pname, sorted(_reduced(fs[0])), sorted(_reduced(fg[0]))))
+        # a setter that walks the pipelines reaches all of them: leaving the loop at the first pipeline of another kind skips the rest
+        for pname, s_ in sorted(ci.setters.items()):
+            for lp in [x for x in ast.walk(s_) if isinstance(x, ast.For) and 'pipelines' in norm(x.iter)]:
+                run.subject('C15-R5')
+                jumps = [j for j in ast.walk(lp) if isinstance(j, (ast.Break, ast.Return))]
+                if jumps:
+                    run.fail('C15-R5', '%s|%s|%s|loop-left' % (mi.name, cname, pname), rel, jumps[0].lineno,
+                             "%s.%s leaves the loop over the pipelines (%s) at the first pipeline it does not apply to: the pipelines after it never "
+                             "receive the value, so what a group assigns to its members is not what is read back" % (cname, pname, type(jumps[0]).__name__.lower()))
+                else:
+                    run.ok('C15-R5', '%s.%s visits every pipeline' % (cname, pname), 'no break / return inside the loop', sample=False)
+        # origin / direction: the observer's transform is translate(origin) * rotate_basis(direction, up) -- the translation applied last
+        # (leftmost), with the coordinates that were assigned
+        for pname, part in (('origin', 'value'), ('direction', None)):
+            s_ = ci.setters.get(pname)
+            if s_ is None:
+                continue
+            vname = s_.args.args[1].arg
+            for st in [x for x in ast.walk(s_) if isinstance(x, ast.Assign) and norm(x.targets[0]) == 'self.transform']:
+                run.subject('C15-R5')
+                v = st.value
+                ok_ = isinstance(v, ast.BinOp) and isinstance(v.op, ast.Mult) and isinstance(v.left, ast.Call) and dotted(v.left.func) == 'translate' \
+                    and isinstance(v.right, ast.Call) and dotted(v.right.func) == 'rotate_basis'
+                if ok_:
+                    src = vname if pname == 'origin' else None
+                    targs = [norm(a) for a in v.left.args]
+                    if pname == 'origin' and targs != ['%s.x' % vname, '%s.y' % vname, '%s.z' % vname]:
+                        run.fail('C15-R5', '%s|%s|origin|translation' % (mi.name, cname), rel, st.lineno,
+                                 "%s.origin builds the transform with translate(%s): not the coordinates that were assigned" % (cname, ', '.join(targs)))
+                    elif pname == 'direction' and norm(v.right.args[0]) != vname:
+                        run.fail('C15-R5', '%s|%s|direction|basis' % (mi.name, cname), rel, st.lineno,
+                                 "%s.direction builds the basis from %s, not from the assigned vector" % (cname, norm(v.right.args[0])))
+                    else:
+                        run.ok('C15-R5', '%s.%s transform' % (cname, pname), 'translate(origin) * rotate_basis(direction, up)', sample=False)
+                elif isinstance(v, ast.BinOp) and isinstance(v.op, ast.Mult) and isinstance(v.right, ast.Call) and dotted(v.right.func) == 'translate':
+                    run.fail('C15-R5', '%s|%s|%s|order' % (mi.name, cname, pname), rel, st.lineno,
+                             "%s.%s multiplies the translation on the right (%s): it is applied in the observer's own rotated frame, so an observer "
+                             "that already points somewhere does not end up at the assigned origin" % (cname, pname, norm(v)[:60]))
+                else:
+                    run.undecided('C15-R5', '%s.%s transform' % (cname, pname), 'form %s' % norm(v)[:50])
     run.floor('C15-R5', 2)
 
 
